@@ -200,6 +200,8 @@ def step (w : RW) (op : MOp) : RW :=
   | .mpClear => clear w
   | .mpSuspend out => suspend w out
   | .align _ => w      -- bottom alignment is outside this abstraction (the ROWS stream never uses it)
+  | .retarget =>       -- a new target: nothing on the screen is managed any more
+    { w with n := 0, z := 0, stale := true, limiter := w.limiter.map (fun p => (p.1, ({ cap := 20, prev := w.now } : Limiter.St))) }
   | .bar k op => barStep w k op
 
 def run (w : RW) (ops : List MOp) : RW := ops.foldl step w
